@@ -2109,7 +2109,9 @@ def serialized_on_wire(message: Message) -> bool:
     :class:`bool`
         Whether this message was or should be serialized on the wire.
     """
-    return message._serialized_on_wire
+    # a message filled only in place (``msg.items.append(x)``, ``msg.child.x = 1``) has
+    # never been assigned to, but it has content and is serialized like any other
+    return message._serialized_on_wire or bool(message)
 
 
 def which_one_of(message: Message, group_name: str) -> Tuple[str, Optional[Any]]:
